@@ -62,16 +62,6 @@ theorem C02_plug_precOK (tbl : Table) (rtlf : Definition → Bool) (t x : RTree)
     (hx : PrecOK tbl rtlf x) (hop : OperandLike x) : PrecOK tbl rtlf (plug t x) :=
   plug_precOK tbl rtlf t x ht hx hop
 
-/-- token positions of the non-synthesized nodes in in-order -/
-def inorderSig (tbl : Table) : RTree → List Nat
-  | .nil => []
-  | .node l d k r => inorderSig tbl l ++ (if d == .list then [] else [k]) ++ inorderSig tbl r
-  | .group _ k inner => k :: inorderSig tbl inner
-
-/-- full statement (checked by the suites, not proved): the in-order walk of the reference tree is the significant tokens -/
-def C02_refParse_inorder : Prop :=
-  ∀ toks t, refParse Table.gen toks = .ok t → inorderSig Table.gen t = significant toks
-
 /-- full statement (NOT proved; proof sketch: in a `PrecOK` tree of the fragment priorities do not increase downwards, so
     the root is the rightmost (left-to-right level) resp. leftmost (right-to-left level) operator of maximal priority of
     the item sequence, which determines the split): the precedence condition determines the tree — two trees of the
